@@ -1,7 +1,7 @@
 """C14 — time allocation never exceeds what the clock allows: limit clauses C14-CAP, C14-EXACT, C14-USE,
 C14-WIRE (DESIGN.md §3). The wall-clock clause is not decided (timing)."""
 from facts import (norm, show, walk, strip_refs, deep_strip, is_call_to, callee_name, find_calls, guard_conditions,
-                   cmp_op, const_str)
+                   cmp_op, const_str, substitute_args)
 import pC05
 
 EXPLANATION = (
@@ -89,6 +89,24 @@ def is_min(e):
     return None
 
 
+def through_helper(fx, info, e):
+    """If the clocks-arm value is component k of the tuple returned by an in-crate helper of time_control, return the
+    helper's own expression for that component with the helper's parameters replaced by the call's arguments, and
+    remember the helper body (the per-colour selection is then looked up there)."""
+    d = deep_strip(e)
+    if isinstance(d, tuple) and d[0] == "field" and str(d[2]).isdigit() and isinstance(deep_strip(d[1]), tuple) and deep_strip(d[1])[0] == "call":
+        c = deep_strip(d[1])
+        hb = fx.body(c[1]) if isinstance(c[1], str) else None
+        if hb is not None and norm(hb.name).startswith("engine::search::time_control::"):
+            for bb, j, st in hb.stmts():
+                rv = st.get("rv")
+                if st["k"] == "assign" and st["lhs"]["l"] == 0 and not st["lhs"].get("p") and rv and rv["k"] == "agg" and rv.get("agg") == "tuple" and int(d[2]) < len(rv["ops"]):
+                    info["limits_body"] = hb
+                    info["callargs"] = c[2]
+                    return substitute_args(hb.expr(rv["ops"][int(d[2])], expand_named=True, at=bb), c[2])
+    return e
+
+
 def rule_cap(fx, rep, new, info):
     ok = True
     n = 0
@@ -104,6 +122,8 @@ def rule_cap(fx, rep, new, info):
         defs = per_arm.get("Clocks", [])
         n += 1
         good = len(defs) == 1
+        if good:
+            defs = [(defs[0][0], through_helper(fx, info, defs[0][1]))]
         mn = is_min(defs[0][1]) if good else None
         good = good and mn is not None
         a = c = None
@@ -297,16 +317,17 @@ def rule_wire(fx, rep, new, info):
         rep.obligation(False)
         bad("select", f"cannot find the per-colour (clock, increment) selection feeding the remaining time (`{show(clock)[:100] if clock else None}`)")
     else:
-        for d in new.defs().get(tuple_local, []):
+        lb = info.get("limits_body", new)
+        for d in lb.defs().get(tuple_local, []):
             if d[0] != "stmt" or d[3]["rv"]["k"] != "agg":
                 continue
             colour = None
-            for (e, pol, where) in guard_conditions(new, d[1], expand_named=True):
-                e2 = deep_strip(e)
+            for (e, pol, where) in guard_conditions(lb, d[1], expand_named=True):
+                e2 = deep_strip(substitute_args(e, info["callargs"])) if lb is not new else deep_strip(e)
                 if isinstance(e2, tuple) and e2[0] == "discr" and isinstance(e2[1], tuple) and e2[1][0] == "field" and e2[1][2] == "player" and isinstance(pol, int):
                     colour = pvars.get(pol)
             for slot, op in enumerate(d[3]["rv"]["ops"]):
-                e = deep_strip(new.expr(op, expand_named=True, at=d[1]))
+                e = deep_strip(lb.expr(op, expand_named=True, at=d[1]))
                 if isinstance(e, tuple) and e[0] == "field":
                     role_of_field[e[2]] = (colour, "clock" if slot == clock_slot else "increment")
         # the increment slot of the same tuple must be the one added into the base time
